@@ -146,7 +146,7 @@ class Run:
 
     # ----------------------------------------------------------------- exec
     def exec(self, family, cases=None, replay=None, trace_name=None, args=None, timeout=3600, batch=None, binary=None,
-             env=None):
+             env=None, ok_codes=(0,)):
         trace = os.path.join(self.dir, trace_name or ("trace-%s.ndjson" % family))
         stats = trace + ".stats"
         cmd = [binary or self.vh, family, "-tier", self.tier, "-seed", str(self.seed), "-out", trace, "-stats", stats]
@@ -165,7 +165,7 @@ class Run:
             p = subprocess.run(cmd, cwd=self.dir, capture_output=True, text=True, timeout=timeout, env=e)
         except subprocess.TimeoutExpired:
             raise Infra("harness timeout (%s)" % family)
-        if p.returncode != 0:
+        if p.returncode not in ok_codes:
             raise Infra("harness %s exited %d:\n%s" % (family, p.returncode, (p.stdout + p.stderr)[-4000:]))
         st = json.load(open(stats))
         log("exec %s: %d events in %d histories, %.1fs" % (family, st["events"], st["histories"], time.time() - t))
